@@ -374,6 +374,7 @@ class AppState:
         self.outputs = []      # per call: list of chunks the app produced (yielded / written)
         self.read_bodies = []
         self.files = []
+        self.failed = set()    # indices of application calls that actually raised
 
 
 def make_app(programs, state):
@@ -387,6 +388,11 @@ def make_app(programs, state):
         state.environs.append(env_copy)
         produced = []
         state.outputs.append(produced)
+
+        def boom(msg):
+            state.failed.add(idx)
+            return AppFailure(msg)
+
         fail = prog.get("fail")
         rb = prog.get("read_body", "none")
         if rb == "all":
@@ -396,7 +402,7 @@ def make_app(programs, state):
         else:
             state.read_bodies.append(None)
         if fail == "before_sr":
-            raise AppFailure("before start_response")
+            raise boom("before start_response")
         headers = [(n, v) for n, v in prog.get("headers", [])]
         try:
             write = start_response(prog["status"], headers)
@@ -405,7 +411,7 @@ def make_app(programs, state):
             raise
         second = prog.get("second_sr")
         if fail == "after_sr":
-            raise AppFailure("after start_response")
+            raise boom("after start_response")
         kind = prog.get("kind", "iter")
         chunks = [c.encode("latin-1") for c in prog.get("chunks", [])]
         if prog.get("head_aware") and environ.get("REQUEST_METHOD") == "HEAD":
@@ -431,13 +437,18 @@ def make_app(programs, state):
         if kind == "write":
             for i, c in enumerate(chunks):
                 if fail == "chunk:%d" % i:
-                    raise AppFailure("in write %d" % i)
+                    raise boom("in write %d" % i)
                 write(c)
                 produced.append(c)
                 if second and second.get("when") == "after_write" and i == 0:
                     late_sr()
+            if fail == "end":
+                raise boom("after the last write")
             state.completed += 1
-            return Closer([], state, fail)
+            return Closer([], state, fail, idx)
+        if kind == "file" and prog.get("head_aware") and environ.get("REQUEST_METHOD") == "HEAD":
+            state.completed += 1
+            return Closer([], state, fail, idx)
         if kind == "file":
             fspec = prog["file"]
             fd = 1000 + len(FAKE_OS.files)
@@ -453,29 +464,30 @@ def make_app(programs, state):
         def gen():
             for i, c in enumerate(chunks):
                 if fail == "chunk:%d" % i:
-                    raise AppFailure("in chunk %d" % i)
+                    raise boom("in chunk %d" % i)
                 produced.append(c)
                 yield c
                 if second and second.get("when") == "after_write" and i == 0:
                     late_sr()
             if fail == "end":
-                raise AppFailure("at end of iteration")
+                raise boom("at end of iteration")
             state.completed += 1
         if kind == "list":
             for i, c in enumerate(chunks):
                 produced.append(c)
             state.completed += 1
             return list(chunks)
-        return Closer(gen(), state, fail)
+        return Closer(gen(), state, fail, idx)
 
     return app
 
 
 class Closer:
-    def __init__(self, it, state, fail):
+    def __init__(self, it, state, fail, idx=0):
         self.it = iter(it)
         self.state = state
         self.fail = fail
+        self.idx = idx
 
     def __iter__(self):
         return self.it
@@ -483,6 +495,7 @@ class Closer:
     def close(self):
         self.state.closed += 1
         if self.fail == "close":
+            self.state.failed.add(self.idx)
             raise AppFailure("in close()")
 
 
